@@ -12,18 +12,58 @@ import (
 	"github.com/philpearl/plenc/plenccore"
 )
 
+// wrappedCodecRegistry is the registry used while the codec for a struct is
+// being built. It resolves the struct's own type to the (still incomplete)
+// codec so that recursive types work, and it holds back every codec built for
+// the struct's fields - they may refer to the incomplete codec - until the
+// struct codec is complete. Only then are they published to the underlying
+// registry, so other goroutines never see a half-built codec, and a failed
+// build leaves nothing behind.
 type wrappedCodecRegistry struct {
 	CodecRegistry
+	typ     reflect.Type
+	tag     string
+	codec   Codec
+	pending []pendingCodec
+}
+
+type pendingCodec struct {
 	typ   reflect.Type
 	tag   string
 	codec Codec
 }
 
-func (w wrappedCodecRegistry) Load(typ reflect.Type, tag string) Codec {
+func (w *wrappedCodecRegistry) Load(typ reflect.Type, tag string) Codec {
 	if typ == w.typ && tag == w.tag {
 		return w.codec
 	}
+	for i := range w.pending {
+		if p := &w.pending[i]; p.typ == typ && p.tag == tag {
+			return p.codec
+		}
+	}
 	return w.CodecRegistry.Load(typ, tag)
+}
+
+func (w *wrappedCodecRegistry) StoreOrSwap(typ reflect.Type, tag string, c Codec) Codec {
+	for i := range w.pending {
+		if p := &w.pending[i]; p.typ == typ && p.tag == tag {
+			return p.codec
+		}
+	}
+	w.pending = append(w.pending, pendingCodec{typ: typ, tag: tag, codec: c})
+	return c
+}
+
+// publish hands the codecs built during a successful struct build to the
+// underlying registry. For a nested build that is the enclosing build's
+// wrappedCodecRegistry, so nothing reaches the shared registry before the
+// outermost struct codec is complete.
+func (w *wrappedCodecRegistry) publish() {
+	for _, p := range w.pending {
+		w.CodecRegistry.StoreOrSwap(p.typ, p.tag, p.codec)
+	}
+	w.pending = nil
 }
 
 func BuildStructCodec(p CodecBuilder, registry CodecRegistry, typ reflect.Type, tag string) (Codec, error) {
@@ -36,7 +76,8 @@ func BuildStructCodec(p CodecBuilder, registry CodecRegistry, typ reflect.Type, 
 		fields: make([]description, typ.NumField()),
 	}
 
-	registry = wrappedCodecRegistry{CodecRegistry: registry, typ: typ, tag: tag, codec: &c}
+	wrapped := &wrappedCodecRegistry{CodecRegistry: registry, typ: typ, tag: tag, codec: &c}
+	registry = wrapped
 
 	var maxIndex int
 	var count int
@@ -120,6 +161,7 @@ func BuildStructCodec(p CodecBuilder, registry CodecRegistry, typ reflect.Type, 
 	}
 
 	verifYield("struct.done")
+	wrapped.publish()
 	return &c, nil
 }
 
